@@ -34,6 +34,7 @@
 EXTENDS DrGraph, Json, IOUtils, TLCExt
 
 Batch == JsonDeserialize(IOEnv.TRACE_FILE)
+NoPrefixT == <<>>
 
 VARIABLES tid, l
 tvars == <<vars, tid, l>>
@@ -321,16 +322,15 @@ DiagHelp ==
                        ELSE "not-the-first")
     ELSE "StringifyRequirements:list-and-pair-forms-differ"
 
-(* the parts of the declaration that bear on the answer: what the component looks at through requirements *)
-(* and groups                                                                                             *)
-SeenBy(c)  == {c} \cup {x \in TC(NeedEdges(EP), c) : ~IsPoint(P, x)}
-GroupsOf(x) == Rng(GrpSeq(EP[x].decl))
-SpecInGroup(c)   == \E x \in SeenBy(c) : \E g \in GroupsOf(x) : \E m \in Rng(g) : IsPoint(P, m)
-OddMember(c)     == \E x \in SeenBy(c) : \E g \in GroupsOf(x) : \E m \in Rng(g) :
-                        ~IsPoint(P, m) /\ Len(SpecForm(EP, m)) # 1
+(* the classes of the declaration that bear on the answer (DrGraph: SpecClasses) *)
 DiagSpecs ==
-    LET feat == B(SpecInGroup(Ev.c), ":spec-directly-in-a-group")
-                \o B(OddMember(Ev.c), ":group-member-whose-own-requirements-are-not-exactly-one-item") IN
+    LET cls  == SpecClasses(EP, Ev.c)
+        \* one class names the finding: the first that applies
+        feat == IF "spec-directly-in-a-group" \in cls THEN ":spec-directly-in-a-group"
+                ELSE IF "group-member-whose-own-requirements-are-not-exactly-one-item" \in cls
+                     THEN ":group-member-whose-own-requirements-are-not-exactly-one-item"
+                ELSE IF "group-member-repeats-an-item-of-an-earlier-member" \in cls
+                     THEN ":group-member-repeats-an-item-of-an-earlier-member" ELSE "" IN
     IF Ev.exc # "" THEN "DependencySpecs:exception:" \o Ev.exc \o feat
     ELSE IF ~Ev.islist THEN "DependencySpecs:not-a-list"
     ELSE "DependencySpecs:meaning-differs" \o feat
